@@ -17,13 +17,13 @@ Not asserted: continuation lines, trailing comments, preprocessor lines, initial
 import random
 import re
 
-from vf import core, family, gen_c, layout, registry, run, tokrel
+from vf import core, family, gen_c, gen_lines, layout, registry, run, tokrel
 
 BUILDS = ('fast',)
 LEVEL = 'exploration'
 BRACE_NL = ['nl_if_brace', 'nl_brace_else', 'nl_else_brace', 'nl_for_brace', 'nl_while_brace', 'nl_do_brace', 'nl_brace_while', 'nl_switch_brace',
             'nl_fdef_brace', 'nl_struct_brace', 'nl_elseif_brace', 'nl_else_if']
-JUDGED = ('stmt', 'single', 'close', 'case', 'top', 'open')
+JUDGED = ('stmt', 'single', 'close', 'case', 'top', 'open', 'hdr', 'func', 'fclose')
 
 
 def vcol(lead, ts):
@@ -42,7 +42,8 @@ def judge(case):
     ic = int(cfgd.get('indent_columns', '8'))
     ts = int(cfgd.get('output_tab_size', '8'))
     stmts = ex['stmts']                  # [[line, depth, kind]] of the first rendering
-    r, d = run.fmt(case.src, 'C', case.cfg, dump=True)
+    mode = ex.get('mode', 'closed-form')
+    r, d = run.fmt(case.src, case.lang, case.cfg, dump=True)
     if r.timeout:
         return {'inconclusive': True}, []
     if not r.ok:
@@ -74,6 +75,8 @@ def judge(case):
     seen = set()
     judged = 0
     deep = 0
+    func_no = 0
+    groups = {}
     lead_by_stmt = {}
     for i, (ln, depth, kind) in enumerate(stmts):
         f = first_on_in.get(ln)
@@ -95,6 +98,18 @@ def judge(case):
         judged += 1
         if depth >= 2:
             deep += 1
+        if kind == 'func':
+            func_no += 1
+        if mode == 'constancy':
+            # a brace-indent style without a closed form here: statements of equal depth in one function share a column
+            if kind == 'stmt':
+                prev = groups.setdefault((func_no, depth), (col, ol))
+                if prev[0] != col and 'const' not in seen:
+                    seen.add('const')
+                    fails.append(('same-depth-same-column', {'class': 'columns-differ-at-equal-depth', 'at': ['depth %d' % depth], 'got': ['col %d vs %d' % (prev[0], col)],
+                                                             'index': ol, 'in': ['output line %d: col %d' % (prev[1], prev[0])], 'out': [repr(text[:70])],
+                                                             'first_in': kind, 'first_out': f[2]}))
+            continue
         if col != want:
             k = (kind, 'deeper' if col > want else 'shallower')
             if k not in seen:
@@ -105,7 +120,7 @@ def judge(case):
     # (b) second rendering, different indentation only
     if ex.get('src2_b64'):
         src2 = core.unb64(ex['src2_b64'])
-        r2, d2 = run.fmt(src2, 'C', case.cfg, dump=True)
+        r2, d2 = run.fmt(src2, case.lang, case.cfg, dump=True)
         if r2.ok and not r2.timeout:
             o1, o2 = r.out.split(b'\n'), r2.out.split(b'\n')
             if len(o1) != len(o2):
@@ -132,7 +147,7 @@ def judge(case):
             fails.append(('indentation-invariance', {'class': 'acceptance-depends-on-indent', 'at': [], 'got': [str(r2.status)], 'index': 0, 'in': ['exit 0'],
                                                      'out': ['exit %s' % r2.status], 'first_in': '', 'first_out': ''}))
     info = {'nontrivial': judged >= 5 and deep >= 1,
-            'classes': ['indent_columns:%d' % ic, 'indent_with_tabs:%s' % cfgd.get('indent_with_tabs', '1'), 'judged>=20' if judged >= 20 else 'judged<20',
+            'classes': ['lang:' + case.lang, 'mode:' + mode, 'indent_columns:%d' % ic, 'indent_with_tabs:%s' % cfgd.get('indent_with_tabs', '1'), 'judged>=20' if judged >= 20 else 'judged<20',
                         'depth>=3' if any(dp >= 3 for _l, dp, _k in stmts) else 'depth<3'],
             'sample': {'cfg': cfgd, 'statements_judged': judged, 'deep': deep, 'input_head': core.preview(case.src, 200)}}
     return info, fails
@@ -162,6 +177,28 @@ def to_case(v):
                        {'stmts': [list(x) for x in r1.stmt_lines], 'src2_b64': core.b64(src2.encode('utf-8'))})
 
 
+def make_strategy_lines():
+    from hypothesis import strategies as st
+    return st.tuples(st.sampled_from(['CPP', 'JAVA', 'C', 'CPP']), st.booleans(), st.integers(0, 2 ** 32 - 1), st.integers(0, 2 ** 32 - 1)).flatmap(
+        lambda t: st.tuples(st.just(t), gen_lines.program(t[0], allow_switch=not t[1], force_braces=t[1])))
+
+
+def to_case_lines(v):
+    (lang, brace_mode, iseed, cseed), lines = v
+    src1 = gen_lines.render(lines, random.Random(iseed))
+    src2 = gen_lines.render(lines, random.Random(iseed + 1))
+    crng = random.Random(cseed)
+    cfgd = {'indent_columns': str(crng.choice([1, 2, 3, 4, 4, 5, 8, 8, 12, 16])), 'indent_with_tabs': str(crng.choice([0, 1, 2])),
+            'output_tab_size': str(crng.choice([1, 2, 3, 4, 8, 8, 16]))}
+    for o in crng.sample(BRACE_NL + ['nl_try_brace', 'nl_brace_catch', 'nl_catch_brace', 'nl_brace_finally', 'nl_finally_brace'], crng.randint(0, 4)):
+        cfgd[o] = crng.choice(['add', 'remove', 'force'])
+    extra = {'stmts': [[i + 1, d, k] for i, (d, k, _t) in enumerate(lines)], 'src2_b64': core.b64(src2.encode('utf-8'))}
+    if brace_mode:
+        cfgd['indent_brace'] = str(crng.choice([1, 2, 4]))
+        extra['mode'] = 'constancy'
+    return family.Case(src1.encode('utf-8'), lang, cfgd, {'kind': 'generated-lines', 'indent_seed': iseed, 'cfg_seed': cseed}, extra)
+
+
 def main(ctx):
     quick = ctx.tier == 'quick'
     ctx.rule = ('case = (generated program rendered twice with different per-line indentation, indent options); 2 executions; every judged '
@@ -170,5 +207,6 @@ def main(ctx):
     ctx.assumptions = ['expected depth per statement comes from the generator (annotated token list), not from the tool',
                        'defaults read as: class / namespace bodies are not generated; case labels at switch level, their bodies one level in']
     core.replay_regress(ctx, replay)
-    raw = family.hyp_explore(ctx, judge, make_strategy, to_case, shards=16, examples=(600 if quick else 8000))
+    raw = family.hyp_explore(ctx, judge, make_strategy, to_case, shards=16, examples=(400 if quick else 8000))
+    raw += family.hyp_explore(ctx, judge, make_strategy_lines, to_case_lines, shards=16, examples=(400 if quick else 8000))
     family.triage(ctx, judge, raw, minimise_src=False)
